@@ -274,6 +274,15 @@ pub fn record(args: &[String], out: &mut Out) {
         strings.push(format!("{}:{}", hex(&h), r.next_u32()));
         strings.push(format!("[elements]{}:{}", hex(&h), r.next_u32() % 10));
     }
+    // checksum-valid base58 strings over short and odd payloads (the address parsers index into the payload)
+    for n in [0usize, 1, 2, 3, 20, 21, 22, 33, 34, 53, 54, 55, 56] {
+        for first in [57u8, 39, 12, 235, 75, 4, 36, 19, 23, 0] {
+            let mut p = pools::rbytes(&mut r, n);
+            if n > 0 { p[0] = first; }
+            strings.push(crate::enc::base58check(&p, true));
+            if n == 0 { break; }
+        }
+    }
     strings.extend(["SIGHASH_ALL", "SIGHASH_SINGLE|SIGHASH_ANYONECANPAY", "0x83", "el1", "lq1", "ert1q", "1", "", "{\"a\":1}", "500000000", "cHNldP8="].iter().map(|s| s.to_string()));
     strings.push(crate::psetcodec::full_pset(&mut r).to_string());
     let mut rec = Rec { f, out, sample_every, n: 0, debug_last };
